@@ -1295,4 +1295,177 @@ theorem reconcile_after_create (env : Env) (henv : EnvOK env) (known : List Know
     exact entryOf_ok c.schemas hs s hs'
   · exact ⟨hitems, by intro kv hkv; rw [hinst] at hkv; cases hkv⟩
 
+/-! ### a gateway that already serves other clusters -/
+
+theorem syncSecureServingConfig_eq (env : Env) (old new ss : SecureServing)
+    (h : syncSecureServingConfig env old new = .ok ss) : ss = new := by
+  unfold syncSecureServingConfig at h
+  split at h
+  · cases h
+  · split at h
+    · cases h
+    · cases h; rfl
+
+/-- `Sync` never renames the cluster, and installs the object's serving section -/
+theorem sync_fields (env : Env) (ci ci' : ClusterInfo) (c : Cluster) (h : ci.sync env c = .ok ci') :
+    ci'.cluster = ci.cluster ∧ (ci.cluster = env.lower c.name → ci'.secureServing = c.secureServing) := by
+  unfold ClusterInfo.sync at h
+  split at h
+  · rename_i hne
+    cases h
+    exact ⟨rfl, fun e => absurd e hne⟩
+  · simp only [bind, Except.bind] at h
+    split at h
+    · cases h
+    · split at h
+      · cases h
+      · split at h
+        · cases h
+        · rename_i ss hss
+          split at h
+          · cases h
+          · cases h
+            exact ⟨rfl, fun _ => syncSecureServingConfig_eq env _ _ _ hss⟩
+
+theorem create_fields (env : Env) (remote : Bool) (u : Cluster) (ci : ClusterInfo)
+    (h : createClusterInfo env remote u = .ok ci) : ci.cluster = env.lower u.name ∧ ci.secureServing = u.secureServing := by
+  unfold createClusterInfo at h
+  simp only [bind, Except.bind] at h
+  split at h
+  · cases h
+  · rename_i tls _
+    have := sync_fields env _ ci u h
+    exact ⟨by rw [this.1]; rfl, this.2 rfl⟩
+
+theorem alGet_alSet {β : Type} (l : List (Str × β)) (x k : Str) (v : β) :
+    alGet (alSet l x v) k = if x = k then some v else alGet l k := by
+  induction l with
+  | nil => simp [alSet, alGet]
+  | cons a l ih =>
+    obtain ⟨k', w⟩ := a
+    by_cases h1 : k' = x
+    · subst h1
+      by_cases h2 : k' = k <;> simp [alSet, alGet, h2]
+    · by_cases h2 : k' = k
+      · subst h2
+        have : ¬ x = k' := fun e => h1 e.symm
+        simp [alSet, alGet, h1, this]
+      · simp [alSet, alGet, h1, h2, ih]
+
+theorem alGet_foldl_alSet {β : Type} (names : List Str) (v : β) : ∀ (m : List (Str × β)) (k : Str) (w : β),
+    alGet (names.foldl (fun acc n => alSet acc n v) m) k = some w → alGet m k = some w ∨ (k ∈ names ∧ w = v) := by
+  induction names with
+  | nil => intro m k w h; exact Or.inl h
+  | cons n rest ih =>
+    intro m k w h
+    rcases ih (alSet m n v) k w h with h1 | h1
+    · rw [alGet_alSet] at h1
+      by_cases hn : n = k
+      · simp [hn] at h1; exact Or.inr ⟨by simp [hn], h1.symm⟩
+      · simp [hn] at h1; exact Or.inl h1
+    · exact Or.inr ⟨by simp [h1.1], h1.2⟩
+
+/-- the bootstrap branch of the controller's handler: what it registers -/
+theorem syncUpstreamCluster_bootstrap (env : Env) (remote : Bool) (m m' : Manager) (u : Cluster)
+    (hnew : alGet m (env.lower u.name) = none) (h : syncUpstreamCluster env remote m u = .ok m') :
+    ∃ ci : ClusterInfo, ci.cluster = env.lower u.name ∧ ∀ k w, alGet m' k = some w →
+      alGet m k = some w ∨ (k ∈ serverNamesOf env u.name u.secureServing ∧ w = ci) := by
+  unfold syncUpstreamCluster at h
+  simp only [hnew] at h
+  split at h
+  · cases h
+  · cases hc : createClusterInfo env remote u with
+    | error e =>
+      rw [hc] at h
+      cases e <;> simp at h
+      split at h <;> cases h
+    | ok ci =>
+      obtain ⟨h1, h2⟩ := create_fields env remote u ci hc
+      rw [hc] at h
+      simp only [] at h
+      cases ha : addOrUpdateForServerNames env m [] ci with
+      | error e => rw [ha] at h; cases h
+      | ok m2 =>
+        rw [ha] at h
+        cases h
+        refine ⟨ci, h1, ?_⟩
+        intro k w hk
+        unfold addOrUpdateForServerNames at ha
+        simp only [List.nil_eq, reduceCtorEq, if_false, List.filter_nil, List.foldl_nil] at ha
+        split at ha
+        · cases ha
+        · cases ha
+          rcases alGet_foldl_alSet _ ci m k w hk with h3 | h3
+          · exact Or.inl h3
+          · refine Or.inr ⟨?_, h3.2⟩
+            have := h3.1
+            simp only [List.mem_filter] at this
+            rw [h1, h2] at this
+            exact this.1
+
+/-- every name the manager holds is a (lower-cased) name or alias of one of the clusters `K`, registered for it -/
+def ServesOnly (env : Env) (K : List Known) (m : Manager) : Prop :=
+  ∀ k ci, alGet m k = some ci → ∃ u ∈ K, env.lower u.name = ci.cluster ∧ ∃ s ∈ u.name :: u.serverNames, k = env.lower s
+
+theorem applyOthers_servesOnly (env : Env) (remote : Bool) (K : List Known) (others : List Cluster) :
+    ∀ m, ServesOnly env K m → (∀ u ∈ others, u.toKnown ∈ K) → ServesOnly env K (applyOthers env remote m others) := by
+  induction others with
+  | nil => intro m hm _; exact hm
+  | cons u rest ih =>
+    intro m hm hK
+    have hrest : ∀ x ∈ rest, x.toKnown ∈ K := fun x hx => hK x (by simp [hx])
+    unfold applyOthers
+    cases hg : alGet m (env.lower u.name) with
+    | some _ => exact ih m hm hrest
+    | none =>
+      simp only []
+      cases hs : syncUpstreamCluster env remote m u with
+      | error e => exact ih m hm hrest
+      | ok m' =>
+        simp only []
+        apply ih m' _ hrest
+        obtain ⟨ci, hci, hreg⟩ := syncUpstreamCluster_bootstrap env remote m m' u hg hs
+        intro k w hk
+        rcases hreg k w hk with h | h
+        · exact hm k w h
+        · refine ⟨u.toKnown, hK u (by simp), ?_, ?_⟩
+          · rw [h.2, hci]; rfl
+          · have := h.1
+            simp only [serverNamesOf, List.mem_cons, List.mem_map] at this
+            rcases this with rfl | ⟨s, hs', rfl⟩
+            · exact ⟨u.name, by simp [Cluster.toKnown], rfl⟩
+            · exact ⟨s, by simp [Cluster.toKnown, hs'], rfl⟩
+
+/-- the plugin's conflict rule implies the controller's: on a gateway that already serves the other clusters the
+    lister knows (applied in any order, some possibly refused), an object the plugin accepts finds none of its names
+    taken - the handler bootstraps it without refusing it for a server-name conflict -/
+theorem syncUpstreamCluster_among_others (env : Env) (henv : EnvOK env) (others : List Cluster) (c : Cluster)
+    (hv : valid env (others.map Cluster.toKnown) c = true)
+    (hown : ∀ u ∈ others, env.lower u.name ≠ env.lower c.name) (remote : Bool) :
+    ∃ m', syncUpstreamCluster env remote (applyOthers env remote [] others) c = .ok m' := by
+  have hserves : ServesOnly env (others.map Cluster.toKnown) (applyOthers env remote [] others) :=
+    applyOthers_servesOnly env remote _ others [] (by intro k ci h; simp [alGet] at h)
+      (fun u hu => List.mem_map.mpr ⟨u, hu, rfl⟩)
+  have hk : noConflict env (others.map Cluster.toKnown) c = true := by
+    simp only [valid, Bool.and_eq_true] at hv; exact hv.2
+  apply syncUpstreamCluster_ok env henv (others.map Cluster.toKnown) c hv remote
+  · intro k ci hget _
+    exact hserves k ci hget
+  · -- the object's own name is not registered
+    cases hget : alGet (applyOthers env remote [] others) (env.lower c.name) with
+    | none => rfl
+    | some ci =>
+      exfalso
+      obtain ⟨u, hu, _, s, hs, hks⟩ := hserves _ ci hget
+      unfold noConflict at hk
+      simp only [List.all_eq_true, Bool.or_eq_true, decide_eq_true_eq, Bool.and_eq_true] at hk
+      rcases hk u hu with h | h
+      · simp only [List.mem_map] at hu
+        obtain ⟨x, hx, rfl⟩ := hu
+        exact hown x hx h
+      · have := (h s hs).1
+        simp at this
+        apply this
+        rw [hks, henv.lower_idem]
+
 end KG.Lemmas.Validate
